@@ -1529,9 +1529,13 @@ func (c *control) dirCond(colon, at bool, params []any) {
 		}
 	default:
 		if n < 0 {
-			if no, ok := arg.(slip.Fixnum); ok {
+			switch no := arg.(type) {
+			case slip.Fixnum:
 				n = int(no)
-			} else {
+			case *slip.Bignum:
+				// any integer selects; one that is not a fixnum is out of range
+				n = math.MaxInt
+			default:
 				slip.TypePanic(c.scope, 0, "conditional directive argument", arg, "fixnum")
 			}
 		}
